@@ -32,6 +32,7 @@ type ConcCfg struct {
 	Crash    bool // record the disk stream of the concurrent part and recover from crash images cut inside it
 	Loss     int
 	MaxImg   int
+	Many     int // extra files created in the set-up and used by all clients (more inodes than the inode cache holds)
 }
 
 type HEv struct {
@@ -227,6 +228,13 @@ func RunConc(cfg ConcCfg, t *Trace, seg int) {
 	}
 	if len(sh.files) == 0 || sh.big == "" {
 		panic("concurrent set-up failed")
+	}
+	for i := 0; i < cfg.Many; i++ {
+		c := NewCall("CREATE")
+		c.Fh, c.Name = sh.dirs[1+i%2], fmt.Sprintf("m%d", i)
+		if c = doSeq(c); c.St == "OK" {
+			sh.files = append(sh.files, c.RFh)
+		}
 	}
 	if cfg.Seed%3 != 0 {
 		// restart: the allocator starts again at the lowest free inode number, so objects created from now on get
